@@ -3,9 +3,11 @@ package main
 import (
 	"fmt"
 	"os"
+	"os/signal"
 	"path/filepath"
 	"strconv"
 	"strings"
+	"syscall"
 
 	"github.com/goose-lang/goose/machine/async_disk"
 	"github.com/goose-lang/goose/machine/disk"
@@ -291,6 +293,30 @@ func (dd *diskDriver) one(w []string) string {
 		return "bad-op"
 	}
 	switch w[0] {
+	case "fsize":
+		// fsize <bytes>: from now on this process may not write files beyond <bytes> (RLIMIT_FSIZE, SIGXFSZ ignored):
+		// a write that straddles the limit is SHORT (no error), one that starts beyond it fails with EFBIG
+		n, ok := num(1)
+		if !ok {
+			return "bad-op"
+		}
+		signal.Ignore(syscall.SIGXFSZ)
+		var cur syscall.Rlimit
+		syscall.Getrlimit(syscall.RLIMIT_FSIZE, &cur)
+		if err := syscall.Setrlimit(syscall.RLIMIT_FSIZE, &syscall.Rlimit{Cur: n, Max: cur.Max}); err != nil {
+			return "harness-error " + err.Error()
+		}
+		return "ok"
+	case "extrunc":
+		// extrunc <bytes>: somebody else truncates the image while the disk is open (reads beyond are short, no error)
+		n, ok := num(1)
+		if !ok || !dd.file {
+			return "unsupported"
+		}
+		if err := os.Truncate(dd.path, int64(n)); err != nil {
+			return "harness-error " + err.Error()
+		}
+		return "ok"
 	case "buf":
 		l, ok1 := num(1)
 		f, ok2 := num(2)
